@@ -13,8 +13,10 @@ package quic
 import (
 	"bytes"
 	"encoding/json"
+	"fmt"
 	"math/rand"
 	"net/netip"
+	"sort"
 	"sync"
 	"testing"
 	"testing/synctest"
@@ -22,15 +24,15 @@ import (
 )
 
 type vfQtCase struct {
-	K     string          `json:"k"`
+	K     string            `json:"k"`
 	Ctx   map[string]string `json:"ctx"` // per component: "same" or the way it differs (QuicTokens.tla)
-	Dmg   string          `json:"dmg"`
-	Dm    int             `json:"dm"`
-	Ds    int             `json:"ds"`
-	Dns   int             `json:"dns"`
-	Ifrac int             `json:"ifrac"`
-	Olen  int             `json:"olen"`
-	Fam   string          `json:"fam"`
+	Dmg   string            `json:"dmg"`
+	Dm    int               `json:"dm"`
+	Ds    int               `json:"ds"`
+	Dns   int               `json:"dns"`
+	Ifrac int               `json:"ifrac"`
+	Olen  int               `json:"olen"`
+	Fam   string            `json:"fam"`
 }
 
 var vfQtComponents = []string{"key", "scid", "dcid", "ip", "port"}
@@ -457,9 +459,11 @@ func vfQtResetTrace(env *vfEnv, tn int, rnd *rand.Rand, nobs int) {
 	}
 	var kin, cin, tin vfQtIntern
 	gens := make([]*statelessResetTokenGenerator, len(keys))
+	bufs := make([][]byte, len(keys))
 	for i := range keys {
 		gens[i] = &statelessResetTokenGenerator{}
 		gens[i].init(keys[i])
+		bufs[i] = make([]byte, 64)
 	}
 	emit := func(ki int, cid []byte, tok statelessResetToken, how string) {
 		env.Emit(tn, map[string]any{"e": "srt", "key": kin.id(keys[ki][:]), "cid": cin.id(cid), "tok": tin.id(tok[:]),
@@ -468,10 +472,16 @@ func vfQtResetTrace(env *vfEnv, tn int, rnd *rand.Rand, nobs int) {
 	for n := 0; n < nobs && !env.Hung; n++ {
 		ki := rnd.Intn(len(keys))
 		cid := cids[rnd.Intn(len(cids))]
-		how := []string{"same-gen", "fresh-gen", "concurrent"}[rnd.Intn(3)]
+		how := []string{"same-gen", "fresh-gen", "concurrent", "reused-buffer", "reused-buffer"}[rnd.Intn(5)]
 		var toks []statelessResetToken
 		p := vfCatchTimeout(10*time.Second, func() {
 			switch how {
+			case "reused-buffer":
+				// the id travels in one buffer per generator that is overwritten in place
+				// (as the receive buffer of an endpoint is)
+				b := bufs[ki][:len(cid)]
+				copy(b, cid)
+				toks = append(toks, gens[ki].tokenForConnID(b))
 			case "same-gen":
 				toks = append(toks, gens[ki].tokenForConnID(cid))
 			case "fresh-gen":
@@ -505,6 +515,106 @@ func vfQtResetTrace(env *vfEnv, tn int, rnd *rand.Rand, nobs int) {
 	}
 }
 
+// vfQtResetCase is a TLC-generated call history for tokenForConnID: the ids of the calls and
+// how they are carried ("fresh" slices, one buffer "reuse"d in place, or "mixed").
+type vfQtResetCase struct {
+	K       string   `json:"k"`
+	Seq     []string `json:"seq"`
+	Carrier string   `json:"carrier"`
+}
+
+// vfQtResetHistories runs call histories in one trace (one key, three connection IDs): each
+// history on a generator of its own and, for every epEvery-th, through a real Endpoint whose
+// receive buffer is the carrier.  Every result is logged as an observation <<key, id, token>>
+// next to those of fresh generators; TLC requires them to form an injective function.
+func vfQtResetHistories(t *testing.T, env *vfEnv, tn int, rnd *rand.Rand, cases []vfQtResetCase, epEvery int) {
+	env.Emit(tn, map[string]any{"e": "hdr", "v": int(retryTokenValidityPeriod / time.Second), "what": "reset-histories"})
+	var key [32]byte
+	rnd.Read(key[:])
+	key[0] |= 1
+	ids := map[string][]byte{}
+	for _, n := range []string{"A", "B", "C"} {
+		ids[n] = vfQtRandBytes(rnd, connIDLen)
+	}
+	var kin, cin, tin vfQtIntern
+	emit := func(cid, tok []byte, how string) {
+		env.Emit(tn, map[string]any{"e": "srt", "key": kin.id(key[:]), "cid": cin.id(cid), "tok": tin.id(tok),
+			"how": how, "cidlen": len(cid)})
+	}
+	fail := func(p, where string) {
+		env.Emit(tn, map[string]any{"e": vfQtP(p), "msg": p, "where": where})
+		if p == "hang" {
+			env.Hung = true
+		}
+	}
+	// reference: a fresh generator per id
+	for _, n := range []string{"A", "B", "C"} {
+		var g statelessResetTokenGenerator
+		g.init(key)
+		tok := g.tokenForConnID(bytes.Clone(ids[n]))
+		emit(ids[n], tok[:], "fresh-gen")
+	}
+	carried := func(carrier string, i int, buf, id []byte) []byte {
+		if carrier == "fresh" || (carrier == "mixed" && i%2 == 1) {
+			return bytes.Clone(id)
+		}
+		b := buf[:len(id)]
+		copy(b, id)
+		return b
+	}
+	for ci, c := range cases {
+		if env.Hung {
+			return
+		}
+		var g statelessResetTokenGenerator
+		g.init(key)
+		buf := make([]byte, 64)
+		for i, n := range c.Seq {
+			id := ids[n]
+			var tok statelessResetToken
+			if p := vfCatchTimeout(10*time.Second, func() { tok = g.tokenForConnID(carried(c.Carrier, i, buf, id)) }); p != "" {
+				fail(p, "tokenForConnID")
+				return
+			}
+			emit(id, tok[:], "history-"+c.Carrier)
+		}
+		if epEvery <= 0 || ci%epEvery != 0 {
+			continue
+		}
+		// the same history as datagrams for unknown connection ids through one Endpoint
+		type obs struct{ id, tok []byte }
+		var seen []obs
+		p := vfCatchTimeout(30*time.Second, func() {
+			synctest.Test(t, func(t *testing.T) {
+				te := newTestEndpoint(t, &Config{TLSConfig: newTestTLSConfig(serverSide), StatelessResetKey: key})
+				rbuf := make([]byte, 80)
+				for i, n := range c.Seq {
+					size := 43 + rnd.Intn(20)
+					b := rbuf[:size]
+					if c.Carrier == "fresh" || (c.Carrier == "mixed" && i%2 == 1) {
+						b = make([]byte, size)
+					}
+					rnd.Read(b)
+					b[0] = 0x40 | b[0]&0x3f
+					copy(b[1:], ids[n])
+					te.write(&datagram{b: b, peerAddr: netip.MustParseAddrPort("10.1.2.3:4567")})
+					out := te.read()
+					if len(out) >= statelessResetTokenLen {
+						seen = append(seen, obs{ids[n], bytes.Clone(out[len(out)-statelessResetTokenLen:])})
+					}
+				}
+			})
+		})
+		if p != "" {
+			fail(p, "endpoint")
+			return
+		}
+		for _, o := range seen {
+			emit(o.id, o.tok, "endpoint-"+c.Carrier)
+		}
+	}
+}
+
 func TestVerifQuicTokens(t *testing.T) {
 	env := vfLoad(t)
 	if env == nil {
@@ -532,9 +642,31 @@ func TestVerifQuicTokens(t *testing.T) {
 	tn := 0
 	// TLC-generated cases, 40 per trace; unit level for all, endpoint level for a subset
 	if env.In != "" {
-		items := env.Items()
+		var items []vfItem
+		var resets []vfQtResetCase
+		for _, it := range env.Items() {
+			var rc vfQtResetCase
+			if json.Unmarshal(it.V, &rc) == nil && rc.K == "reset" {
+				resets = append(resets, rc)
+			} else {
+				items = append(items, it)
+			}
+		}
 		per := env.Int("per", 40)
 		epEvery := env.Int("endpoint_every", 3)
+		// tokenForConnID call histories, 40 per trace
+		sort.Slice(resets, func(i, j int) bool {
+			a, b := resets[i], resets[j]
+			return a.Carrier+fmt.Sprint(a.Seq) < b.Carrier+fmt.Sprint(b.Seq)
+		})
+		for lo := 0; lo < len(resets); lo += 40 {
+			tn++
+			if !env.Only(tn) || env.Hung {
+				continue
+			}
+			hi := min(lo+40, len(resets))
+			vfQtResetHistories(t, env, tn, env.Rand(int64(600000+tn)), resets[lo:hi], epEvery)
+		}
 		for lo := 0; lo < len(items); lo += per {
 			tn++
 			if !env.Only(tn) || env.Hung {
